@@ -495,7 +495,13 @@ func TestVerifC01Listeners(t *testing.T) {
 					return
 				}
 				ok := false
-				for try := 0; try < 3 && !ok; try++ {
+				// (a plain TCP connection on loopback loses nothing: there the very first valid query after the malformed input must be
+				// answered - a listener that recovers on the second connection has carried something over from the malformed one)
+				tries := 3
+				if l.name == "tcp" || l.name == "gnet" {
+					tries = 1
+				}
+				for try := 0; try < tries && !ok; try++ {
 					ok = l.ask(nextID())
 				}
 				if !ok {
@@ -503,7 +509,7 @@ func TestVerifC01Listeners(t *testing.T) {
 						died(l.name, desc)
 						return
 					}
-					rep.Violate("C01:listener:"+l.name+":stopped-serving", fmt.Sprintf("after %s a valid query on the same listener is no longer answered (3 attempts)", desc), nil)
+					rep.Violate("C01:listener:"+l.name+":stopped-serving", fmt.Sprintf("after %s a valid query on the same listener is no longer answered (%d attempt(s))", desc, tries), nil)
 				}
 			}
 		}()
